@@ -33,7 +33,7 @@ def run(ctx):
     else:
         vlib.model_check(ctx, "MCWire", "MCWire_%s.cfg" % tier, timeout=3000)
         cases = vlib.gen_cases(ctx, "MCWireGen", "MCWireGen_%s.cfg" % tier, timeout=1800)
-        nrand, nbig = (3000, 7) if ctx.quick() else (150000, 35)
+        nrand, nbig = (3000, 9) if ctx.quick() else (150000, 42)
     obs = os.path.join(ctx.dir("obs"), "obs.ndjson")
     vlib.run([drv, "c02", "-cases", cases, "-random", str(nrand), "-big", str(nbig),
               "-seed", str(ctx.seed), "-out", obs], timeout=3000, check=True)
@@ -44,10 +44,10 @@ def run(ctx):
         vlib.report_failure(ctx, row, {"failed": why, "id": row.get("id")}, case={"v": row.get("v")})
     ctx.cov["distinct_nontrivial"] = vlib.distinct_count(
         [r for r in rows if r.get("op") == "c02big" or r["v"].get("t") in (11, 12, 13, 14, 15)],
-        lambda r: r.get("v", r.get("len")))
+        lambda r: r.get("v", r.get("parts")))
     for r in rows[:2] + rows[-2:]:
         ctx.sample({k: r[k] for k in ("id", "src", "v", "enc") if k in r} if r.get("op") == "c02"
-                   else {k: r[k] for k in ("id", "len", "sha")})
+                   else {k: r[k] for k in ("id", "shape", "parts")})
     ctx.assumptions += ["TLC 1.8.0 and the CommunityModules Json reader", "the harness projection wj (bit splitting only)",
                         "binaries above 4096 bytes are judged by header + sha256 digest"]
     return vlib.finish(ctx, "TLC enumerates the bounded value universe of MCWire.tla (all 11 wire types, boundary scalars, "
